@@ -24,11 +24,11 @@ type Oblig struct {
 	Bounded bool
 	Self    int // index of the assumption entry derived from this obligation (-1 if none)
 	// result
-	Status  string
-	Solver  string
-	Seconds float64
-	Output  string
-	Trivial bool
+	Status   string
+	Solver   string
+	Seconds  float64
+	Output   string
+	Trivial  bool
 	FailPart int
 }
 
@@ -58,10 +58,10 @@ type Exec struct {
 	strLitList []string
 	zeroArrs   map[string]*Term
 
-	loopWrites  map[string]map[string]bool
-	loopAddrs   map[string]map[string]map[uint64]bool
+	loopWrites    map[string]map[string]bool
+	loopAddrs     map[string]map[string]map[uint64]bool
 	loopThreshold map[string]int
-	activeLoops []string
+	activeLoops   []string
 
 	notes    []string
 	notesSet map[string]bool
@@ -69,16 +69,16 @@ type Exec struct {
 	bounded  bool // inside/after a `bounded` loop: downstream obligations are labelled bounded
 	held     map[string]bool
 
-	callDepth int
-	unitName  string
-	ghostLog  map[string]int
-	sums      map[string]*sumInfo
-	sumList   []*sumInfo
-	specEnv0  *SpecEnv
-	entryArgs []Val
-	retNames  []string
-	loopsSeen int
-	termProved []string
+	callDepth   int
+	unitName    string
+	ghostLog    map[string]int
+	sums        map[string]*sumInfo
+	sumList     []*sumInfo
+	specEnv0    *SpecEnv
+	entryArgs   []Val
+	retNames    []string
+	loopsSeen   int
+	termProved  []string
 	termMissing []string
 
 	checkLocks  bool
@@ -746,6 +746,15 @@ func (x *Exec) enterLoop(fr *Frame, li *loopInfo, in *State, phiEntry map[*ssa.P
 		if _, isPtr := v.(VPtr); !isPtr {
 			x.assume(st, x.typeInv(st, v, phi.Type()))
 		}
+		// the hidden index of a range loop starts at -1 (slices) or 0 (range over int) and only counts up
+		if vi, ok := v.(VInt); ok {
+			switch phi.Comment {
+			case "rangeindex":
+				x.assume(st, c.Le(c.Int(-1), vi.T))
+			case "rangeint.iter":
+				x.assume(st, c.Le(c.Int(0), vi.T))
+			}
+		}
 	}
 	// 3. assume the invariant for the arbitrary iteration
 	env = x.loopEnv(fr, li, li.phiVals, st)
@@ -769,7 +778,7 @@ func (x *Exec) enterLoop(fr *Frame, li *loopInfo, in *State, phiEntry map[*ssa.P
 		x.oblige(st, "hint", fmt.Sprintf("L%d.%s", li.ordinal, h.Label), fr.site, h.Src, t)
 		x.assume(st, t)
 	}
-	li.headSt = st
+	li.headSt = st.Clone()
 	return st
 }
 
@@ -839,6 +848,20 @@ func (x *Exec) closeLoop(fr *Frame, li *loopInfo, latch *ssa.BasicBlock, st *Sta
 		for _, inv := range li.spec.Invariants {
 			t := x.evalBool(inv.E, env)
 			x.oblige(st, "inv", fmt.Sprintf("L%d.%s.step", li.ordinal, inv.Label), fr.site, inv.Src, t)
+		}
+		if len(li.spec.Steps) > 0 && li.headSt != nil {
+			// step clauses: prev(e) reads e at the head of this iteration (header phis at their head values)
+			for phi := range vals {
+				fr.env[phi] = li.phiVals[phi]
+			}
+			env.Prev = x.loopEnv(fr, li, li.phiVals, li.headSt)
+			for phi, v := range vals {
+				fr.env[phi] = v
+			}
+			for _, sc := range li.spec.Steps {
+				t := x.evalBool(sc.E, env)
+				x.oblige(st, "inv", fmt.Sprintf("L%d.%s.iter", li.ordinal, sc.Label), fr.site, sc.Src, t)
+			}
 		}
 	}
 	if exit {
